@@ -300,11 +300,14 @@ def main(run):
     # ---- (b) the real command line: options vs options written into the file
     root = os.path.join(CACHE, "c19-%d" % os.getpid())
     m = 40 if run.tier == "quick" else 400
-    cli_pairs = pairs[:len(pairs) - n] + [pairs[len(pairs) - n + k] for k in range(min(m, n))]
+    # corpus pairs run in both output modes; every other generated pair writes files (exports exist only then)
+    ncorpus = len(pairs) - n
+    cli_pairs = ([(f, c, True) for f, c in pairs[:ncorpus]] + [(f, c, False) for f, c in pairs[:ncorpus]]
+                 + [pairs[ncorpus + k] + (k % 2 == 0,) for k in range(min(m, n))])
 
     def one(k):
-        f, c = cli_pairs[k]
-        return cli_pair(root, k, f, c, use_out=(k % 2 == 0))          # every other pair writes files: exports exist only then
+        f, c, use_out = cli_pairs[k]
+        return cli_pair(root, k, f, c, use_out=use_out)
 
     try:
         with ThreadPoolExecutor(max_workers=NPROC) as ex:
@@ -313,9 +316,9 @@ def main(run):
         shutil.rmtree(root, ignore_errors=True)
     ncli = 0
     for k, (rc1, so1, se1), (rc2, so2, se2) in outs:
-        f, c = cli_pairs[k]
+        f, c, use_out = cli_pairs[k]
         ncli += 1
-        judge_cli(run, f, c, k % 2 == 0, (rc1, so1, se1), (rc2, so2, se2), distinct)
+        judge_cli(run, f, c, use_out, (rc1, so1, se1), (rc2, so2, se2), distinct)
     # ---- (d) strict mode from the file vs from the command line, on journals that use an undeclared
     #      tag / account / commodity: every use of strict mode must follow the effective value
     for name, a, b in strict_scenarios(run):
